@@ -568,3 +568,5 @@ META = {
 }
 
 META['explanation'] += ' ' + 'Further: every CFG path from the coverage != 1 branch to the save inserts the Markov pseudo-count; memoisation discipline; name-based uuids are deterministic.'
+
+META['explanation'] += ' ' + 'Round 13: a line that has been counted in N is yielded on every path (no skip between the count and the yield).'
